@@ -1,5 +1,54 @@
-"""Scenarios other than the world machine."""
+"""Scenarios other than the world machine, and per-property mixes of scenarios."""
+
+from __future__ import annotations
+
+
+class Mix:
+    """A check that alternates between several scenarios by run seed (each sub-scenario judges the same property)."""
+
+    def __init__(self, prop, parts):
+        self.prop = prop
+        self.parts = parts           # list of (weight, scenario)
+        first = parts[0][1]
+        self.level = first.level
+        self.stubs = sorted({s for _, p in parts for s in p.stubs})
+        self.assumptions = sorted({a for _, p in parts for a in p.assumptions})
+        self.expected_probes = [x for _, p in parts for x in p.expected_probes]
+        self.rule = " || ".join(f"[{type(p).__name__}] {p.rule}" for _, p in parts)
+
+    def pick(self, seed, program):
+        if program is not None and "part" in program.get("config", {}):
+            return self.parts[program["config"]["part"]][1], program["config"]["part"]
+        total = sum(w for w, _ in self.parts)
+        x = seed % total
+        for i, (w, p) in enumerate(self.parts):
+            if x < w:
+                return p, i
+            x -= w
+        return self.parts[-1][1], len(self.parts) - 1
+
+    def execute(self, seed, program=None):
+        part, idx = self.pick(seed, program)
+        res = part.execute(seed, program)
+        res["program"]["config"] = {**res["program"]["config"], "part": idx}
+        res["stats"]["cell"] = f"{type(part).__name__}:{res['stats'].get('cell', '')}"
+        return res
+
+    def simplify_config(self, cfg):
+        return [{**c, "part": cfg["part"]} for c in self.parts[cfg.get("part", 0)][1].simplify_config(cfg)]
+
+    def extra_coverage(self, agg):
+        return {}
 
 
 def make(name: str, *args):
+    from .concat import ConcatScenario
+
+    from .scenarios import WorldScenario
+
+    if name == "C04":
+        return ConcatScenario("C04")
+    if name in ("C05", "C09", "C12"):
+        weights = {"C05": (3, 2), "C09": (3, 1), "C12": (3, 1)}[name]
+        return Mix(name, [(weights[0], WorldScenario(name)), (weights[1], ConcatScenario(name))])
     raise KeyError(f"no scenario for {name}")
